@@ -39,7 +39,7 @@ _RULE = ("scripts = TLC -simulate walks of TssSigning.tla (role-relative: member
 
 PROPS = {
     "C05": dict(
-        mc=[_mc("TssSigning_MC_C05.cfg", "quick", 900), _TRANS] + _MC_C05,
+        mc=[_mc("TssSigning_MC_C05.cfg", "quick", 900), _mc("TssSigning_MC_dchg.cfg", "quick", 600), _TRANS] + _MC_C05,
         gen=dict(tla="TssSigning_Gen.tla", cfg="TssSigning_Gen.cfg", depth=26, num=dict(quick=300, thorough=4000), timeout=900),
         drive=dict(family="tsssigning", mode="c05", nrand=dict(quick=300, thorough=6000)),
         trace=dict(tla="TssSigning_Trace.tla", cfg="TssSigning_Trace_C05.cfg"),
@@ -47,7 +47,8 @@ PROPS = {
         assumptions=TSS_ASSUME,
     ),
     "C10": dict(
-        mc=[_mc("TssSigning_MC_C10.cfg", "quick", 900), _mc("TssSigning_MC_live.cfg", "quick", 300), _TRANS] + _MC_C10,
+        mc=[_mc("TssSigning_MC_C10.cfg", "quick", 900), _mc("TssSigning_MC_live.cfg", "quick", 300),
+            _mc("TssSigning_MC_achg.cfg", "quick", 600), _TRANS] + _MC_C10,
         gen=dict(tla="TssSigning_Gen.tla", cfg="TssSigning_Gen.cfg", depth=26, num=dict(quick=300, thorough=4000), timeout=900),
         drive=dict(family="tsssigning", mode="c10", nrand=dict(quick=300, thorough=6000)),
         trace=dict(tla="TssSigning_Trace.tla", cfg="TssSigning_Trace_C10.cfg"),
